@@ -41,7 +41,8 @@ def cases(draw, tier):
     elif cls == "Dropout":
         c.update(p=draw(st.sampled_from([0.0, 0.1, 0.5, 0.9])), n=draw(st.integers(2, 8)))
     elif cls in ("Linear", "LinearReadout"):
-        c.update(fi=draw(st.integers(1, 9)), fo=draw(st.integers(1, 9)), bias=draw(st.booleans()), constraint=draw(st.sampled_from(BIN + ["default"])))
+        c.update(fi=draw(st.integers(1, 9)), fo=draw(st.integers(1, 9)), bias=draw(st.booleans()), constraint=draw(st.sampled_from(BIN + ["default"])),
+                 wtype=draw(st.sampled_from(["default", "default", "weight", "output"])))   # the tag given to the weight (a tagging-only option)
     elif cls == "Conv1d":
         g = draw(st.sampled_from([1, 1, 2, 3]))
         k = draw(st.integers(1, 4)); d = draw(st.integers(1, 3))
@@ -194,7 +195,11 @@ def build(c):
         twin = lambda m, x: tw(x)  # noqa: E731
     elif cls in ("Linear", "LinearReadout"):
         K = uu.Linear if cls == "Linear" else uu.LinearReadout
-        m = make(c, cls, c["fi"], c["fo"], bias=c["bias"], dtype=D, **ckw(c))
+        wkw = {} if c.get("wtype", "default") == "default" else dict(weight_mup_type=c["wtype"])
+        m = make(c, cls, c["fi"], c["fo"], bias=c["bias"], dtype=D, **ckw(c), **wkw)
+        want_tag = ("weight" if cls == "Linear" else "output") if not wkw else c["wtype"]
+        if getattr(m.weight, "mup_type", None) != want_tag:
+            raise AssertionError(f"C08-tag: weight tagged {getattr(m.weight, 'mup_type', None)!r}, expected {want_tag!r}")
         if c["bias"]:
             with torch.no_grad():
                 m.bias.copy_(R([c["fo"]]))
